@@ -204,7 +204,7 @@ func safeCheck[C any](check func(C) *Violation, c C) (v *Violation) {
 func Run[C any](t *testing.T, p Prop[C]) {
 	n := PerShard(Pick(p.Quick, p.Thorough))
 	_ = flag.Set("rapid.checks", strconv.Itoa(n))
-	executed := 0
+	executed, harnessSkips := 0, 0
 	rapid.Check(t, func(rt *rapid.T) {
 		c := p.Gen(rt)
 		executed++
@@ -226,6 +226,12 @@ func Run[C any](t *testing.T, p Prop[C]) {
 		if v == nil {
 			return
 		}
+		if strings.HasPrefix(v.Key, "harness:") {
+			// the harness could not set the case up (no free port, temp dir ...): never a violation
+			harnessSkips++
+			Ev.Excluded(v.Key)
+			return
+		}
 		if IsKnown(v.Key) {
 			Ev.KnownHit(v.Key)
 			return
@@ -233,6 +239,9 @@ func Run[C any](t *testing.T, p Prop[C]) {
 		SaveReplay(p.Name, c, v)
 		rt.Fatalf("VIOLATION-DETAIL %s %s", p.Name, v)
 	})
+	if harnessSkips*5 > executed && harnessSkips > 10 {
+		t.Errorf("HARNESS-INCONCLUSIVE %s: %d of %d cases could not be set up", p.Name, harnessSkips, executed)
+	}
 	Ev.LabelN("rapid_cases_requested:"+p.Name, int64(n))
 	Ev.LabelN("rapid_cases_executed:"+p.Name, int64(executed))
 }
